@@ -405,13 +405,14 @@ func (v *V) evalSpecBuiltin(e *Env, name string, call *ast.CallExpr) (Val, bool)
 		}
 		return r, true
 	case "implies":
-		a, b := e.eval(args[0]), e.eval(args[1])
+		a := e.nonProving().eval(args[0])
+		b := e.eval(args[1])
 		return boolVal(implies(a.S, b.S)), true
 	case "iff":
-		a, b := e.eval(args[0]), e.eval(args[1])
+		a, b := e.nonProving().eval(args[0]), e.nonProving().eval(args[1])
 		return boolVal(eq(a.S, b.S)), true
 	case "ite":
-		c, a, b := e.eval(args[0]), e.eval(args[1]), e.eval(args[2])
+		c, a, b := e.nonProving().eval(args[0]), e.eval(args[1]), e.eval(args[2])
 		if isUntyped(a.T) && !isUntyped(b.T) {
 			a = e.adapt(a, b.T)
 		} else if isUntyped(b.T) && !isUntyped(a.T) {
@@ -424,13 +425,22 @@ func (v *V) evalSpecBuiltin(e *Env, name string, call *ast.CallExpr) (Val, bool)
 	case "forall", "exists":
 		// forall(i, lo, hi, P): lo <= i < hi over int
 		id, ok := args[0].(*ast.Ident)
-		if !ok || len(args) != 4 {
+		if !ok || !(len(args) == 4 || (name == "exists" && len(args) == 5)) {
 			panic(bindErr("%s(i, lo, hi, P) expected", name))
 		}
 		lo, hi := e.adapt(e.eval(args[1]), tInt), e.adapt(e.eval(args[2]), tInt)
+		if len(args) == 5 && e.proving {
+			// exists(i, lo, hi, P, w): when the clause is being proved (positive position) the
+			// witness w instantiates the quantifier: lo <= w < hi && P[w/i]
+			w := e.adapt(e.eval(args[4]), tInt)
+			ne := e.sub()
+			ne.bound[id.Name] = Val{T: tInt, S: w.S}
+			body := ne.eval(args[3])
+			return boolVal(and(v.ile(lo.S, w.S), v.ilt(w.S, hi.S), body.S)), true
+		}
 		ne := e.sub()
 		ne.inQuant++
-		qn := fmt.Sprintf("%s_q%d", sanitize(id.Name), v.nextQ())
+		qn := fmt.Sprintf("%s_qi%d", sanitize(id.Name), v.nextQ())
 		ne.bound[id.Name] = Val{T: tInt, S: qn}
 		body := ne.eval(args[3])
 		d.usesQuant = true
@@ -457,6 +467,11 @@ func (v *V) evalSpecBuiltin(e *Env, name string, call *ast.CallExpr) (Val, bool)
 		body := ne.eval(args[2])
 		d.usesQuant = true
 		inv := and(v.typeInvNoAlloc(qv)...)
+		if isRef(t) {
+			// quantification over references ranges over all reference values (including junk):
+			// values read from the heap inside quantifiers carry no type invariant either
+			inv = "true"
+		}
 		if name == "all" {
 			return boolVal(fmt.Sprintf("(forall ((%s %s)) (=> %s %s))", qn, d.sortOf(t), inv, body.S)), true
 		}
@@ -482,7 +497,7 @@ func (v *V) evalSpecBuiltin(e *Env, name string, call *ast.CallExpr) (Val, bool)
 		if !ok {
 			panic(bindErr("typeis: cannot resolve type"))
 		}
-		return boolVal(and(not(eq(a.S, "0")), eq(fmt.Sprintf("(dyn_type %s)", a.S), v.typeTag(t)))), true
+		return boolVal(v.hasType(a, t)), true
 	case "fresh":
 		a := e.eval(args[0])
 		if e.old == nil {
@@ -581,7 +596,15 @@ func (v *V) applySpecFun(e *Env, sf *SpecFun, call *ast.CallExpr) Val {
 	var args []Val
 	for i, a := range call.Args {
 		pt := v.prog.resolveType(sf.Params[i].Type, sf.PkgPath)
-		args = append(args, v.coerce(e, e.eval(a), pt))
+		av := e.eval(a)
+		if _, isI := pt.Underlying().(*types.Interface); isI && av.T != nil && !isUntyped(av.T) {
+			if _, argI := av.T.Underlying().(*types.Interface); !argI {
+				// spec functions are macros: keep the precise static type of the argument
+				args = append(args, av)
+				continue
+			}
+		}
+		args = append(args, v.coerce(e, av, pt))
 	}
 	var rt types.Type = tBool
 	if sf.Ret != nil {
